@@ -14,7 +14,7 @@ from copy import deepcopy
 from harness.simdevice import CliDevice
 from harness.simtransport import AsyncSimTransport, FaultPlan, SimTransport, make_conn
 from scrapli.decorators import timeout_wrapper
-from scrapli.exceptions import (ScrapliConnectionError, ScrapliPrivilegeError, ScrapliTimeout, ScrapliTypeError)
+from scrapli.exceptions import (ScrapliConnectionError, ScrapliConnectionNotOpened, ScrapliPrivilegeError, ScrapliTimeout, ScrapliTypeError)
 
 FAIL_TEXT = "% Invalid input"
 BUDGET = 60          # transport reads per operation before the rig declares a runaway loop
@@ -34,6 +34,12 @@ class _RigMixin:
     pushes = None
 
     def _fire(self, f):
+        if f.action == "timeout_close":
+            # what decorators._handle_timeout does when a real timer expires: close the transport, raise ScrapliTimeout
+            f.fired = True
+            self.trace.append(("fault", "timeout_close"))
+            self._do_close()
+            raise ScrapliTimeout("rig: timed out, transport closed")
         if getattr(f, "soft", False) and not isinstance(f.action, str):
             f.fired = True
             self.trace.append(("fault", type(f.action).__name__))
@@ -90,6 +96,8 @@ class _PushMixin:
     """a library-session transport: the driver's timeout_transport setter calls `_set_timeout` (paramiko / ssh2)"""
 
     def _set_timeout(self, value):
+        if not self.opened:
+            raise ScrapliConnectionNotOpened     # paramiko/transport.py `if not self.session_channel`, ssh2 `if not self.session`
         self.session_timeout = value
         if self.pushes is None:
             self.pushes = []
@@ -128,8 +136,11 @@ def exc_code(e):
 class Probe:
     """logs the outermost instrumented call sites of one operation"""
 
-    def __init__(self, conn, transport):
+    def __init__(self, conn, transport, swap_in_try=False):
         self.conn, self.t = conn, transport
+        self.swap_in_try = swap_in_try      # (from the translator) names the region of read_callback's first push
+        self.cb_frames = []                 # pushes seen so far, per active read_callback level
+        self.chan_swapped = False
         self.log = []
         self.depth = 0
         self.in_chan = 0
@@ -143,7 +154,14 @@ class Probe:
                 self.t.session_timeout if hasattr(self.t, "_set_timeout") else None)
 
     def _enter(self, site):
-        if site == "read":
+        if site == "push":
+            if self.cb_frames and self.cb_frames[-1] == 0:
+                region = "cb" if self.swap_in_try else "swap"
+            else:
+                region = "n"
+            if self.cb_frames:
+                self.cb_frames[-1] += 1
+        elif site == "read":
             region = "chan" if self.in_chan else "cb"
         elif site == "check":
             region = "cb"
@@ -201,6 +219,7 @@ class Probe:
             async def w(*a, **k):
                 probe.in_chan += 1
                 probe.chan_reads = []
+                probe.chan_swapped = False
                 try:
                     r = await orig(*a, **k)
                 finally:
@@ -212,6 +231,7 @@ class Probe:
             def w(*a, **k):
                 probe.in_chan += 1
                 probe.chan_reads = []
+                probe.chan_swapped = False
                 try:
                     r = orig(*a, **k)
                 finally:
@@ -234,8 +254,58 @@ class Probe:
             return r
         self.conn._post_send_command = w
 
+    def _bracket_read_callback(self):
+        orig = self.conn.read_callback
+        probe = self
+        if inspect.iscoroutinefunction(orig):
+            async def w(*a, **k):
+                level = k.get("initial_input") is None and len(a) < 2
+                if level:
+                    probe.cb_frames.append(0)
+                try:
+                    return await orig(*a, **k)
+                finally:
+                    if level:
+                        probe.cb_frames.pop()
+        else:
+            def w(*a, **k):
+                level = k.get("initial_input") is None and len(a) < 2
+                if level:
+                    probe.cb_frames.append(0)
+                try:
+                    return orig(*a, **k)
+                finally:
+                    if level:
+                        probe.cb_frames.pop()
+        self.conn.read_callback = w
+
+    def hostile_args(self, raise_at):
+        """emulation of an asynchronous exception (SIGALRM handler) arriving right after the swapping store of
+        `_read_until_prompt_or_time` and before its `try`: the args object raises ScrapliTimeout from inside the store,
+        AFTER storing, at the raise_at-th swap (0 = never).  Every swap is logged as a `gap` site."""
+        args = self.conn._base_transport_args
+        probe = self
+        probe.gaps = 0
+
+        class Hostile(type(args)):
+            def __setattr__(self, name, value):
+                object.__setattr__(self, name, value)
+                if name == "timeout_transport" and probe.in_chan and not probe.chan_swapped:
+                    probe.chan_swapped = True
+                    probe.gaps += 1
+                    o = probe.obs()
+                    e = {"site": "gap", "region": "gap", "ops": o[3], "tr": o[2], "sess": o[4], "exc": None, "flag": False}
+                    probe.log.append(e)
+                    if probe.gaps == raise_at:
+                        e["exc"] = "t"
+                        raise ScrapliTimeout("rig: asynchronous timeout between the swap and the try")
+        args.__class__ = Hostile
+
     def install(self):
         c, ch = self.conn, self.conn.channel
+        if hasattr(self.t, "_set_timeout"):
+            self._site(self.t, "_set_timeout", "push")
+        self._bracket_read_callback()
         for name, site in (("send_input", "send_input"), ("send_inputs_interact", "interact"), ("write", "write"),
                            ("_read_until_input", "read_until_input"), ("send_return", "send_return"), ("read", "read")):
             self._site(ch, name, site)
@@ -426,19 +496,21 @@ def _call(conn, spec, probe, is_async):
 def _step(probe, t, before, exc):
     last = probe.log[-1] if probe.log else None
     escape = None
-    if exc is not None and last is not None and last["exc"] is not None and last["region"] in ("chan", "cb"):
+    if exc is not None and last is not None and last["exc"] is not None and last["region"] in ("chan", "cb", "swap", "gap"):
         escape = {"site": last["site"], "region": last["region"], "exc": last["exc"]}
     return {"res": exc_code(exc), "exc_repr": repr(exc)[:120] if exc is not None else None, "before": before, "after": probe.obs(),
-            "log": probe.log, "escape": escape, "reads": t.nreads, "writes": t.nwrites}
+            "log": probe.log, "escape": escape, "reads": t.nreads, "writes": t.nwrites, "session_open": bool(t.opened)}
 
 
 def run_case_sync(case):
     conn, t, dev = build(case)
     t.open()
-    probe = Probe(conn, t).install()
+    probe = Probe(conn, t, bool(case.get("swap_in_try"))).install()
+    if case.get("gap") is not None:
+        probe.hostile_args(case["gap"])
     steps = []
     for spec in case["ops"]:
-        probe.log, probe.depth, probe.in_chan = [], 0, 0
+        probe.log, probe.depth, probe.in_chan, probe.cb_frames = [], 0, 0, []
         t.op_reads = 0
         before = probe.obs()
         exc = None
@@ -454,10 +526,12 @@ def run_case_sync(case):
 async def run_case_async(case):
     conn, t, dev = build(case)
     await t.open()
-    probe = Probe(conn, t).install()
+    probe = Probe(conn, t, bool(case.get("swap_in_try"))).install()
+    if case.get("gap") is not None:
+        probe.hostile_args(case["gap"])
     steps = []
     for spec in case["ops"]:
-        probe.log, probe.depth, probe.in_chan = [], 0, 0
+        probe.log, probe.depth, probe.in_chan, probe.cb_frames = [], 0, 0, []
         t.op_reads = 0
         before = probe.obs()
         exc = None
